@@ -1,0 +1,12 @@
+//go:build verif
+
+// Contracts for package soy, checked by /verif/govc (comment-only).
+package soy
+
+// ParseGlobals cannot panic on any input: the line is split at an index
+// strings.Index returned, and both callee errors are returned.
+//@ func ParseGlobals
+//@   props C06
+//@   modifies *
+//@   loop 0
+//@     noterm
